@@ -178,6 +178,9 @@ type Check struct {
 	MaxQuick, MaxThorough int
 	// Workers overrides the number of parallel workers (default 16 / GOMAXPROCS).
 	Workers int
+	// ReplayAttempts > 1: a replay file is executed up to that many times until the violation recurs
+	// (for checks whose system under test resolves same-instant ties with the runtime's random select).
+	ReplayAttempts int
 	// Enumerate, if set, is run once (by worker 0) after the directed scenarios: it enumerates a finite
 	// space exhaustively, calling run for each scenario; it returns a description of the space.
 	Enumerate func(tier string, run func(s *Scn) *Outcome) string
@@ -421,16 +424,24 @@ func Main(t *testing.T, c *Check) {
 			fmt.Printf("INFRA: cannot parse replay file: %v\n", err)
 			os.Exit(2)
 		}
-		o := safeRun(c, t, rf.Scenario)
-		for _, l := range o.Log {
-			fmt.Println("  log:", l)
+		attempts := c.ReplayAttempts
+		if attempts < 1 {
+			attempts = 1
 		}
-		if o.V != nil {
-			fmt.Printf("REPLAY reproduced: %s\n", o.V)
-			fmt.Printf("VIOLATION property=%s replay=%s\n", c.ID, rp)
-			os.Exit(1)
+		for a := 1; a <= attempts; a++ {
+			o := safeRun(c, t, rf.Scenario)
+			if o.V != nil || a == attempts {
+				for _, l := range o.Log {
+					fmt.Println("  log:", l)
+				}
+			}
+			if o.V != nil {
+				fmt.Printf("REPLAY reproduced (attempt %d of %d): %s\n", a, attempts, o.V)
+				fmt.Printf("VIOLATION property=%s replay=%s\n", c.ID, rp)
+				os.Exit(1)
+			}
 		}
-		fmt.Println("REPLAY: no violation")
+		fmt.Printf("REPLAY: no violation in %d attempt(s)\n", attempts)
 		return
 	}
 
